@@ -128,10 +128,15 @@ def work(chunk_id, payload):
         part["evaluations"] += 1
         # ---- model
         mon = calmodel.Monitor(strict_props=True)
+        polluted = False
         for what, fn, detail in mon.feed(text, res.events):
             part["violations"].append(dict(
                 key="%s:%s:%s" % (PROP, what, fn),
                 desc="%s: %s" % (fn, detail), script=text))
+            if what == "dead-handle-accepted" and "_add_" in fn:
+                # a probe that should have been refused added a standard:
+                # twin and apply would only repeat this root cause
+                polluted = True
         monb = calmodel.Monitor(strict_props=True)
         for what, fn, detail in monb.feed(texts[bid], resb.events):
             part["violations"].append(dict(
@@ -146,6 +151,10 @@ def work(chunk_id, payload):
             if ev is None or "ret" not in ev:
                 continue
             cnt["lines_" + tag] = cnt.get("lines_" + tag, 0) + 1
+        if polluted:
+            cnt["histories_polluted_by_accepted_probe"] = cnt.get(
+                "histories_polluted_by_accepted_probe", 0) + 1
+            continue
         # ---- twin
         va, vb = twin_view(res, set(g.tags)), twin_view(resb)
         cnt["twin_events_compared"] = cnt.get("twin_events_compared", 0) + \
@@ -188,9 +197,9 @@ def main():
     chk = R.Check(PROP)
     binary = chk.build("asan")
     if chk.tier == "quick":
-        total, nops, nchunks = 320, 100, 16
+        total, nops, nchunks = 960, 100, 32
     else:
-        total, nops, nchunks = 6400, 100, 64
+        total, nops, nchunks = 16000, 100, 128
     total = max(nchunks, int(total * chk.args.scale))
     per = max(1, total // nchunks)
     payloads = [(chk.seed, per, nops, binary, chk.workroot)
